@@ -4,4 +4,9 @@ Scn == LET q == JsonDeserialize(IOEnv.SCENARIOS) IN {q[i] : i \in 1..Len(q)}   \
 MaxNowC == 6
 FreeTickC == IF IOEnv.FREETICK = "0" THEN 0 ELSE IF IOEnv.FREETICK = "1" THEN 1 ELSE 2
 MutC == IOEnv.MUT
+\* terminal observation of every scenario (which channel each operation completed on), for the driver's comparison
+ObsLog ==
+  (IOEnv.OBS # "" /\ (AllDone \/ (Quiescent /\ now = MaxNow))) =>
+     Serialize(ToJson([scn |-> scn.id, ch |-> [i \in 1..4 |-> fired[i]]]) \o "\n", IOEnv.OBS,
+        [format |-> "TXT", charset |-> "UTF-8", openOptions |-> <<"WRITE", "CREATE", "APPEND">>]).exitValue = 0
 ====
